@@ -10,7 +10,9 @@ ASSUMPTIONS = []
 
 def generate(r, tier, build):
     k = 1 if tier == "quick" else 20
-    return G.index_requests(r, 800 * k) + G.choose_requests(r, 1200 * k) + G.single_requests(r, 1500 * k)
+    from . import gen_chacha as GC
+    # index() - the draw behind shuffle / choose / single / multiple - on a REAL block generator at every kind of buffer position
+    return (G.index_requests(r, 800 * k) + G.choose_requests(r, 1200 * k) + G.single_requests(r, 1500 * k)) + GC.dist_histories(r, (120 if tier == "quick" else 3000), lambda r: "idx:%d" % r.choice([1, 2, 3, 5, 6, 7, 10, 11, 100, 255, 256, 1000003, (1 << 32) + 1, (1 << 63) + 5, r.range(1, 1 << 40)]))
 
 
 def corpus(build):
@@ -23,6 +25,8 @@ def classify(req, model):
 
 def oracle(req, impl, build):
     k = req.split()[0]
+    if k == "chacha":
+        return O.idx_history_oracle(req, impl)
     return {"index": O.index_oracle, "choose": O.choose_oracle, "single": O.choose_oracle}[k](req, impl)
 
 
